@@ -211,6 +211,15 @@ def _token_corruptions(prog, part=None, parts=1):
             parts_[i], parts_[j] = parts_[j], parts_[i]
             yield "swap %r and %r" % (t, base[j]), "".join(parts_)
         yield "truncate after %r" % t, "".join(base[:i + 1])
+    # the same corruptions of the first and the last token under other line terminators (CRLF, bare CR, LF+CR) and with a leading blank line
+    if part in (None, 0) and toks:
+        for i in (toks[0], toks[-1], toks[len(toks) // 2]):
+            for repl in ("", base[i] + " " + base[i], "=", "]"):
+                parts_ = list(base)
+                parts_[i] = repl
+                text = "".join(parts_)
+                for nl in ("\r\n", "\r", "\n\r"):
+                    yield "corrupt %r -> %r with %r line breaks" % (base[i], repl, nl), ("\n" + text + "\n").replace("\n", nl)
 
 
 def run(case):
